@@ -161,7 +161,7 @@ def r1_yaml_flow(chk: Check) -> None:
     # the encoder itself: escapes `"` and `\\` and non-printables, wraps in double quotes
     wdq = P.func(f"{CAS}:write_double_quoted")
     text = unparse(wdq.node, 100000)
-    chk.decide("stream.write('\"')" in text and "ESCAPE_REPLACEMENTS" in text and "'\"\\\\\\x85\\u2028\\u2029\\ufeff'" in text.replace('"\\"', "'\"") or ("ESCAPE_REPLACEMENTS" in text and text.count("stream.write('\"')") == 2), "C16.R1", wdq,
+    chk.expect("stream.write('\"')" in text and "ESCAPE_REPLACEMENTS" in text and "'\"\\\\\\x85\\u2028\\u2029\\ufeff'" in text.replace('"\\"', "'\"") or ("ESCAPE_REPLACEMENTS" in text and text.count("stream.write('\"')") == 2), "C16.R1", wdq,
                "write_double_quoted escapes and wraps in double quotes", "encoder shape not recognised", wdq.loc())
 
 
@@ -240,10 +240,10 @@ def r3_structured_writers(chk: Check) -> None:
     else:
         t = unparse(pb[0], 100000)
         true_arm = "\n".join(unparse(s, 100000) for s in pb[0].body)
-        chk.decide("request.encoded_body" in true_arm and "response.encoded_body" in true_arm and "base64_string" in true_arm, "C16.R3", vcr, "preserve_bytes => base64 of request and response body", "an arm of the byte-preserving writer does not use encoded_body", vcr.loc(pb[0]))
+        chk.expect("request.encoded_body" in true_arm and "response.encoded_body" in true_arm and "base64_string" in true_arm, "C16.R3", vcr, "preserve_bytes => base64 of request and response body", "an arm of the byte-preserving writer does not use encoded_body", vcr.loc(pb[0]))
         del t
     ht = unparse(har.node, 100000)
-    chk.decide("interaction.request.encoded_body if preserve_bytes" in ht and "interaction.response.encoded_body if preserve_bytes" in ht, "C16.R3", har, "HAR: encoded_body when preserve_bytes", "HAR writer ignores preserve-bytes on one side", har.loc())
+    chk.expect("interaction.request.encoded_body if preserve_bytes" in ht and "interaction.response.encoded_body if preserve_bytes" in ht, "C16.R3", har, "HAR: encoded_body when preserve_bytes", "HAR writer ignores preserve-bytes on one side", har.loc())
     # encoded_body really is base64 of the raw bytes
     for ref in ("core/transport.py:Response.encoded_body", "engine/recorder.py:Request.encoded_body"):
         f = P.maybe_func(ref)
@@ -315,7 +315,7 @@ def r7_handlers(chk: Check) -> None:
     chk.decide(sh is not None and any(isinstance(n, ast.For) and dotted(n.iter) == "handlers" for n in walk_body(sh.node)), "C16.R7", ex, "shutdown() visits every handler", "some handlers are never shut down", ex.loc())
     cw = P.func(f"{CAS}:CassetteWriter.shutdown")
     t = unparse(cw.node, 2000)
-    chk.decide("Finalize()" in t and "_stop_worker" in t, "C16.R7", cw, "shutdown sends Finalize and joins the writer", "the writer thread is not told to finish / not joined", cw.loc())
+    chk.expect("Finalize()" in t and "_stop_worker" in t, "C16.R7", cw, "shutdown sends Finalize and joins the writer", "the writer thread is not told to finish / not joined", cw.loc())
     ih = P.func("cli/commands/run/executor.py:initialize_handlers")
     t = unparse(ih.node, 100000)
     for needle, what in (("JunitXMLHandler(path)", "JUnit"), ("CassetteWriter(", "VCR/HAR")):
@@ -327,7 +327,7 @@ def r7_handlers(chk: Check) -> None:
             chk.decide(val is not None and unparse(val) == v, "C16.R7", ih, f"CassetteWriter({k}={v})", f"`{k}` receives {unparse(val)}", ih.loc(kw[0]))
     post = P.func(f"{CAS}:CassetteWriter.__post_init__")
     t = unparse(post.node, 100000)
-    chk.decide("writer = har_writer" in t and "writer = vcr_writer" in t and "ReportFormat.HAR" in t, "C16.R7", post, "HAR format -> har_writer, otherwise vcr_writer", "format dispatch not recognised", post.loc())
+    chk.expect("writer = har_writer" in t and "writer = vcr_writer" in t and "ReportFormat.HAR" in t, "C16.R7", post, "HAR format -> har_writer, otherwise vcr_writer", "format dispatch not recognised", post.loc())
     for n in walk_body(post.node):
         if isinstance(n, ast.If) and "ReportFormat.HAR" in unparse(n.test):
             body_w = [unparse(s.value) for s in n.body if isinstance(s, ast.Assign)]
